@@ -101,7 +101,15 @@ def body_E1(ctx):
         else:
             log_message("t:m%d" % i, i=i, payload={"k": [i]})
 
-    if in_action:
+    if in_action and sh.get("finish_inside"):
+        # the action is finished explicitly while it is still the current one: a failure on its
+        # end message is reported like any other (the report lands under the finished action)
+        act = start_action(action_type="t:act")
+        with act.context():
+            for i in range(nm):
+                emit(i)
+            act.finish()
+    elif in_action:
         with start_action(action_type="t:act"):
             for i in range(nm):
                 emit(i)
@@ -327,6 +335,8 @@ def _e1_shards(tier):
     # failures whose exception has no text (str() raises): still exactly one report each
     base2 = dict(base, unprintable=1, max_msgs=2, max_dests=2) if tier == "quick" else dict(base, unprintable=1, max_msgs=3)
     out += [dict(base2, prefix=p) for p in enumerate_prefixes(body_E1, "X", {}, base2, 3)]
+    base3 = dict(base, finish_inside=1, max_msgs=1, max_dests=2, typed=0) if tier == "quick" else dict(base, finish_inside=1, max_msgs=2, max_dests=2)
+    out += [dict(base3, prefix=p) for p in enumerate_prefixes(body_E1, "X", {}, base3, 3)]
     return out
 
 
@@ -341,7 +351,7 @@ OBLIGATIONS = [
         shards=_e1_shards,
         twin=[{"max_dests": 3, "max_msgs": 3, "F": 3, "twin_label": "two-failures"}],
         timeout={"quick": 100, "thorough": 1200},
-        bounds={"quick": "<= 3 destinations, <= 3 messages (the first optionally a typed message whose serializer raises, i.e. replaced by its traceback + serialization_failure reports), optionally inside an action, <= 3 failing calls anywhere (incl. on reports); <= 2 destinations x 2 messages where every other failure is an exception whose str() raises", "thorough": "<= 4 messages, <= 4 failing calls"},
+        bounds={"quick": "<= 3 destinations, <= 3 messages (the first optionally a typed message whose serializer raises, i.e. replaced by its traceback + serialization_failure reports), optionally inside an action, <= 3 failing calls anywhere (incl. on reports); <= 2 destinations x 2 messages where every other failure is an exception whose str() raises; <= 2 destinations x 1 message inside an action that is finished explicitly while still current (context() + finish())", "thorough": "<= 4 messages, <= 4 failing calls"},
     ),
     Ob("E3", E3, body_E3, "X", desc="failures while the start-up buffer is re-delivered by add_destinations (inside or outside an action): one report per failure, same sequence for every destination", functions=["Destinations.add", "Destinations.send (logger=None)", "log_message", "Action.log"],
        twin=[{"F": 2, "twin_label": "failed-redelivery-inside-action"}], timeout={"quick": 100, "thorough": 300}, bounds={"quick": "1-2 buffered messages, 1-2 destinations, add_destinations inside/outside an action, <= 2 failing calls anywhere"}),
